@@ -157,6 +157,7 @@ type vf44Case struct {
 	epoch uint64
 	log   []string
 	rmB   int
+	noBig bool // case without split objects
 }
 
 func (c *vf44Case) replay() map[string]any { return map[string]any{"case": c.idx, "ops": c.log} }
@@ -326,7 +327,13 @@ func (c *vf44Case) step() {
 		s.addr = verifkit.Addr(s.obj)
 		c.put(c.idx4(s))
 	case w < 32:
-		c.newBig(rng.IntN(len(c.cnrs)))
+		if c.noBig {
+			s := c.mk(vf44Reg, rng.IntN(len(c.cnrs)), c.randExp(0), -1, 1+rng.IntN(64))
+			s.addr = verifkit.Addr(s.obj)
+			c.put(c.idx4(s))
+		} else {
+			c.newBig(rng.IntN(len(c.cnrs)))
+		}
 	case w < 36: // repeat a put
 		if i := c.pick(vf44Reg, vf44Child, vf44Lock, vf44Tomb); i >= 0 {
 			c.put(i)
@@ -483,11 +490,11 @@ func TestVerif_C44(t *testing.T) {
 		if err != nil {
 			t.Fatalf("shard: %v", err)
 		}
-		c := &vf44Case{r: r, idx: ci, rng: rng, sh: sh, ep: ep, cb: cb, owner: verifkit.RandUser(rng), rmB: rmB}
+		c := &vf44Case{r: r, idx: ci, rng: rng, sh: sh, ep: ep, cb: cb, owner: verifkit.RandUser(rng), rmB: rmB, noBig: rng.IntN(2) == 0}
 		for k := 0; k < 2+rng.IntN(2); k++ {
 			c.cnrs = append(c.cnrs, &vf44Cnr{id: verifkit.RandCID(rng)})
 		}
-		c.log = append(c.log, fmt.Sprintf("rmBatch=%d containers=%d", rmB, len(c.cnrs)))
+		c.log = append(c.log, fmt.Sprintf("rmBatch=%d containers=%d split-objects=%v", rmB, len(c.cnrs), !c.noBig))
 		for s := 0; s < steps; s++ {
 			c.step()
 		}
@@ -590,6 +597,20 @@ func (c *vf44Case) finish(dir string) {
 		}
 	}
 	r.Count("objects_not_required_to_go_still_stored", survivors)
+	// what does GC see at the head of its garbage batch now?
+	headVirtual, headN := 0, 0
+	if bins, err := c.sh.metaBase.GetGarbage(c.rmB); err == nil {
+		for _, b := range bins {
+			for _, id := range b.Objects {
+				headN++
+				for _, s := range c.slots {
+					if s.kind == vf44Parent && s.addr.Object() == id && c.cnrs[s.cnr].id == b.Container {
+						headVirtual++
+					}
+				}
+			}
+		}
+	}
 	metaPath := filepath.Join(dir, "meta")
 	if err := c.sh.Close(); err != nil {
 		r.Inconclusive(fmt.Sprintf("shard close: %v", err))
@@ -667,6 +688,15 @@ func (c *vf44Case) finish(dir string) {
 		return
 	}
 	sort.Strings(bad)
+	if headN > 0 && headVirtual == headN {
+		// the whole garbage batch GC fetches consists of virtual split parents, which Delete
+		// refuses to remove on their own: every later pass fetches the same batch
+		r.Count("cases_stuck_on_virtual_parents", 1)
+		r.Violation("left-at-fixed-point|gc-batch-filled-by-virtual-split-parents",
+			fmt.Sprintf("case %d (batch %d): GC reached a fixed point after %d passes with epochs advancing; its garbage batch holds only %d virtual split parent(s) whose children are further down the list; %d item(s) that must be gone are left: %s",
+				c.idx, c.rmB, lastChangedAt, headN, len(bad), strings.Join(bad, " ")), c.replay())
+		return
+	}
 	seen := map[string]bool{}
 	for _, k := range bad {
 		if seen[k] {
